@@ -348,9 +348,9 @@ def run(ctx):
     quic = quic + ["quic_pipeline_corr"]
     import translate                 # decision-logic functions re-translated from the source and proved equal to the model
     _tm, _tt = translate.wire(ctx, "C03")
-    import export_inputs_thms, export_inputs2_thms, export_faults_thms          # whole-program form: bystander conversations unaffected (Props/ExportInputs)
-    ctx.prove(["TLX.Props.C03", "TLX.Props.C04", "TLX.Props.C01Pipeline"] + c02_model.modules(quic) + _tm + export_inputs_thms.MODULES + export_inputs2_thms.MODULES + export_faults_thms.MODULES)
-    ctx.require_theorems(export_inputs_thms.THEOREMS_C03 + export_inputs2_thms.THEOREMS_NAT + export_inputs2_thms.THEOREMS_C03 + export_faults_thms.THEOREMS)
+    import export_inputs_thms, export_inputs2_thms, export_faults_thms, c02_loss_thms          # whole-program form: bystander conversations unaffected (Props/ExportInputs)
+    ctx.prove(["TLX.Props.C03", "TLX.Props.C04", "TLX.Props.C01Pipeline"] + c02_model.modules(quic) + _tm + export_inputs_thms.MODULES + export_inputs2_thms.MODULES + export_faults_thms.MODULES + c02_loss_thms.MODULES)
+    ctx.require_theorems(export_inputs_thms.THEOREMS_C03 + export_inputs2_thms.THEOREMS_NAT + export_inputs2_thms.THEOREMS_C03 + export_faults_thms.THEOREMS + c02_loss_thms.THEOREMS)
     import file_corr
     file_corr.correspond(ctx, ctx.n(12, 200))     # ties the whole-program model (the theorems' subject) file to file
     ctx.require_theorems(_tt)
